@@ -40,6 +40,12 @@ def _worker():
         try:
             p = procs[c["k"]]
             op = c["op"]
+            # a realistic caller has a stale errno from some earlier, unrelated failure
+            # in this thread (the getpriority(2) protocol depends on errno being reset)
+            try:
+                os.stat("/nonexistent-c18-%d" % (len(c.get("a", ())),))
+            except OSError:
+                pass
             if op == "nice":
                 v = p.nice(*c["a"])
             elif op == "ionice":
